@@ -26,7 +26,9 @@ plan('C10',
          Job(H, 'raw', 'asan', quick=500, thorough=20000, shards=(4, 8), batch=125, case_timeout=120),
          Job(H, 'raw', 'plain', quick=600, thorough=30000, shards=(4, 6), batch=400, case_timeout=120),
      ],
-     assumptions=COMMON_ASSUME + ['one HttpServer per harness process on 127.0.0.1:ephemeral (loopback works in the sandbox); it is never stopped inside a case (C14 decides stopping)',
+     assumptions=COMMON_ASSUME + [
+         'a quarter of the String bodies (request and response) keep their zero bytes: a String carries its length',
+         'one HttpServer per harness process on 127.0.0.1:ephemeral (loopback works in the sandbox); it is never stopped inside a case (C14 decides stopping)',
                                   'JSON bodies are generated inside the value domain C05 shows to round-trip, so that C10 does not re-report C05',
                                   'the raw client is the harness\'s own HTTP/1.1 framing (Content-Length or chunked, no trailers)'])
 T('C10', 'three-way join by unique request id (generator plan / handler-side record / client-side record) over the real client and server on loopback TCP, with concurrent clients under TSan/ASan and a raw fragmenting client',
